@@ -13,7 +13,9 @@ from ..constfold import Folder
 from ..bits import provenance, parse_format
 from ..dataflow import Flow, chain, call_name
 from ..util import calls_in, qual, formals, returns_of, raises_of, \
-    raise_name, has_fact
+    raise_name, has_fact, bind
+from ..terms import Terms, V, match, show, lookup, presence, strip_new, \
+    alternatives, subterms, owner_terms, is_none
 
 MC = "rig.machine_control.machine_controller"
 CTRL = MC + ":MachineController"
@@ -41,64 +43,170 @@ NOT_DECIDED = ["SC&MP's behaviour given the commands",
                "widths are assumed)"]
 
 
+def _loop_parts(cfg, loop):
+    head = cfg.loop_head[id(loop)]
+    body = [n for n in head.succ if n.kind == "join" and
+            n.label == "forbody"][0]
+    return head, body, cfg.loop_exit[id(loop)]
+
+
+def _bind_nt(program, module, name, call):
+    """Field name -> argument expression of a namedtuple construction."""
+    tree = program.module(module).tree
+    fields = None
+    for st in ast.walk(tree):
+        if isinstance(st, ast.Assign) and len(st.targets) == 1 and \
+                isinstance(st.targets[0], ast.Name) and \
+                st.targets[0].id == name and isinstance(st.value, ast.Call) \
+                and call_name(st.value)[0] == "namedtuple":
+            spec = st.value.args[1]
+            if isinstance(spec, ast.Constant):
+                fields = spec.value.replace(",", " ").split()
+            elif isinstance(spec, (ast.List, ast.Tuple)):
+                fields = [e.value for e in spec.elts]
+    if fields is None:
+        raise AnalysisError("namedtuple %s not found in %s" % (name, module))
+    out = {}
+    for f, a in zip(fields, call.args):
+        out[f] = a
+    for k in call.keywords:
+        out[k.arg] = k.value
+    return out
+
+
 def r1_tables(program, rep):
+    """Which value reaches which field is decided on canonical value terms
+    (terms.py): the rule does not depend on the names of locals, on
+    temporaries, on how tuples are unpacked or on which spelling of a dict
+    lookup / membership test is used."""
     fn = program.get(UT + ":routing_tree_to_tables")
     inst = qual(fn)
-    fl = Flow(fn)
-    cfg = fl.cfg
-    rte = calls_in(fn, "RoutingTableEntry")
-    ok = len(rte) == 1 and [unparse(a) for a in rte[0].args] == [
-        "route.outs", "key", "mask", "route.ins"]
-    if ok:
-        # key, mask come from the (key, mask) of the iterated dict entry
-        lp = rte[0]._parent
-        while lp is not None and not isinstance(lp, ast.For):
-            lp = lp._parent
-        ok = lp is not None and unparse(lp.target) == "((key, mask), route)"
-    rep.check(ok, "C10-R1", inst, "entry = RoutingTableEntry(route=outs, "
-              "key, mask, sources=ins) for each (key, mask) of the chip",
-              construct="entry roles", node=fn,
-              fail="the table entry is not built as (outs, key, mask, ins): "
-                   "route and sources (or key and mask) are exchanged")
-    pair = [c for c in calls_in(fn, "InOutPair")]
-    okp = len(pair) == 1 and [unparse(a) for a in pair[0].args] == [
-        "{in_direction}", "set(out_directions)"]
-    nt = [c for c in calls_in(fn, "namedtuple")]
-    okp = okp and len(nt) == 1 and \
-        [unparse(a) for a in nt[0].args][1].replace(" ", "") in (
-            "'ins,outs'",)
-    rep.check(okp, "C10-R1", inst, "a new (key, mask) starts with ins = "
-              "{arrival direction} and outs = the node's out directions",
-              construct="new pair", node=fn)
-    # multisource error
+    T = Terms(fn)
+    cfg = T.cfg
+    trav = calls_in(fn, "traverse")
+    if len(trav) != 1:
+        raise AnalysisError("routing_tree_to_tables: expected one traverse()")
+    loop = trav[0]._parent
+    while loop is not None and not (isinstance(loop, ast.For) and
+                                    _inside(trav[0], loop.iter)
+                                    or loop.iter is trav[0]
+                                    if isinstance(loop, ast.For) else False):
+        loop = loop._parent
+    if loop is None:
+        raise AnalysisError("traverse() is not iterated by a for loop")
+    head, body, _ = _loop_parts(cfg, loop)
+    E = T._elem(T.term(loop.iter, head))
+    DIR, CHIP, OUTS = [T._comp(E, i, 3) for i in range(3)]
+    tree_t = T.term(trav[0].func.value, head)
+    # the tree belongs to a net whose (key, mask) is net_keys[net]
+    m = match(("comp", ("elem", ("items", ("param", V("routes")))), 1),
+              tree_t)
+    if m is None:
+        raise AnalysisError("trees are not the values of the routes "
+                            "argument: %s" % show(tree_t))
+    NET = ("comp", ("elem", ("items", ("param", m["routes"]))), 0)
+    keyparam = [p for p in formals(fn) if p != m["routes"]]
+    if len(keyparam) != 1:
+        raise AnalysisError("routing_tree_to_tables signature changed")
+    K = ("item", ("param", keyparam[0]), NET)
+
+    def same_entry(D, k, what):
+        lk = lookup(D) if D is not None else None
+        return lk is not None and strip_new(lk[0])[0] == "call" and \
+            lk[1] == CHIP and k == K
+
+    def arrival(expr, node):
+        """The value is None for the root and the opposite of the departure
+        direction otherwise."""
+        tn = T.under((is_none(DIR), True))
+        tp = T.under((is_none(DIR), False))
+        vn = alternatives(tn.term(expr, node))
+        vp = alternatives(tp.term(expr, node))
+        return all(v in (("const", None), DIR) for v in vn) and \
+            vp == [("attr", DIR, "opposite")]
+
+    # -- creation of a new (key, mask) on a chip ---------------------------------
+    pairs = calls_in(fn, "InOutPair")
+    okp = len(pairs) == 1
+    create_node = None
+    arr_expr = None
+    if okp:
+        pc = pairs[0]
+        create_node = cfg.node_containing(pc)
+        f = _bind_nt(program, UT, "InOutPair", pc)
+        st = pc._parent
+        okp = isinstance(st, ast.Assign) and len(st.targets) == 1 and \
+            isinstance(st.targets[0], ast.Subscript) and st.value is pc
+        if okp:
+            tgt = T.term(st.targets[0], create_node)
+            lk = lookup(tgt)
+            okp = lk is not None and same_entry(lk[0], lk[1], "store")
+        if okp:
+            outs = strip_new(T.term(f["outs"], create_node))
+            okp = outs == OUTS or match(
+                ("call", ("global", "set"), (OUTS,), ()), outs) is not None
+        if okp:
+            ins = f["ins"]
+            okp = isinstance(ins, ast.Set) and len(ins.elts) == 1 and \
+                arrival(ins.elts[0], create_node)
+            arr_expr = ins.elts[0] if okp else None
+        if okp:
+            pres = [presence(t, p) for t, p in T.all_facts(create_node)]
+            okp = any(x is not None and same_entry(x[0], x[1], "test") and
+                      x[2] is False for x in pres)
+    rep.check(okp, "C10-R1", inst, "a (key, mask) not yet present on the "
+              "chip is stored with ins = {arrival direction} (None for the "
+              "root, else the opposite of the departure direction) and outs "
+              "= the node's out directions",
+              construct="new pair", node=fn,
+              fail="the record created for a new (key, mask) on a chip is "
+                   "not InOutPair(ins={arrival direction}, outs=out "
+                   "directions) stored under route_sets[chip][(key, mask)] "
+                   "when that key is absent")
+    # -- multi-source error -------------------------------------------------------
     okm = False
+    raise_node = None
     for r in raises_of(fn):
         if raise_name(r) != "MultisourceRouteError":
             continue
-        f = fl.facts(cfg.node_of(r))
-        okm = has_fact(f, "(key, mask) in route_sets[x, y]", True) and \
-            has_fact(f, "route_sets[x, y][key, mask].outs != out_directions",
-                     True) and [unparse(a) for a in r.exc.args] == [
-                "key", "mask", "(x, y)"]
+        raise_node = cfg.node_of(r)
+        facts = T.all_facts(raise_node)
+        present = any(x is not None and same_entry(x[0], x[1], "test") and
+                      x[2] is True for x in
+                      [presence(t, p) for t, p in facts])
+        differ = False
+        for t, p in facts:
+            if t[0] == "cmp" and t[1] == "Eq" and p is False:
+                for a_, b_ in ((t[2], t[3]), (t[3], t[2])):
+                    if b_ == OUTS and a_[0] == "attr" and a_[2] == "outs":
+                        lk = lookup(a_[1])
+                        differ = differ or (lk is not None and
+                                            same_entry(lk[0], lk[1], "cmp"))
+        exc = program.get("rig.routing_table.exceptions:"
+                          "MultisourceRouteError.__init__")
+        bound = bind(r.exc, exc, True)
+        argsok = T.term(bound["key"], raise_node) == T._comp(K, 0, 2) and \
+            T.term(bound["mask"], raise_node) == T._comp(K, 1, 2) and \
+            T.term(bound["coordinate"], raise_node) == CHIP
+        okm = present and differ and argsok
     rep.check(okm, "C10-R1", inst, "MultisourceRouteError(key, mask, chip) "
               "is raised exactly when the same key/mask already has "
               "different out directions on the chip",
               construct="multisource condition", node=fn)
-    # merge path: the arrival direction is always added
-    adds = [c for c in calls_in(fn, "add")
-            if unparse(call_name(c)[1]).endswith(".ins")]
+    # -- merge --------------------------------------------------------------------
     oka = False
-    if len(adds) == 1:
-        an = cfg.node_containing(adds[0])
-        gate = [n for n in cfg.nodes if n.kind == "assume" and
-                not n.polarity and unparse(n.ast) ==
-                "route_sets[x, y][key, mask].outs != out_directions"]
-        lp = adds[0]._parent
-        while lp is not None and not isinstance(lp, ast.For):
-            lp = lp._parent
-        oka = len(gate) == 1 and unparse(adds[0].args[0]) == "in_direction" \
-            and cfg.must_pass(gate[0], lambda n: n is an,
-                              targets=[cfg.loop_head[id(lp)], cfg.exit])
+    add_node = None
+    for c in calls_in(fn, "add"):
+        recv = T.term(c.func.value, cfg.node_containing(c))
+        if recv[0] == "attr" and recv[2] == "ins" and lookup(recv[1]) and \
+                same_entry(*lookup(recv[1]), what="add"):
+            add_node = cfg.node_containing(c)
+            oka = len(c.args) == 1 and arrival(c.args[0], add_node)
+    if oka and create_node is not None and raise_node is not None:
+        # every iteration creates, merges or raises
+        done = (create_node, add_node, raise_node)
+        oka = cfg.must_pass(body, lambda n: n in done,
+                            targets=[head, cfg.exit])
     rep.check(oka, "C10-R1", inst, "when a (key, mask) is already present "
               "with the same outs, the arrival direction (None included) is "
               "added to its sources on every path",
@@ -107,61 +215,164 @@ def r1_tables(program, rep):
                    "existing entry's sources (e.g. a locally sourced tree "
                    "loses its None source): the entry can be mistaken for a "
                    "straight-through one and default-routed away")
-    # in_direction = direction.opposite (None stays None)
-    ind = [d for d in fl.defs if d.var == "in_direction"]
-    oki = len(ind) == 2 and any(unparse(d.value) == "direction" for d in ind)\
-        and any(unparse(d.value) == "direction.opposite" and
-                has_fact(fl.facts(d.node), "in_direction is not None", True)
-                for d in ind)
-    rep.check(oki, "C10-R1", inst, "sources record the link a packet "
-              "arrives ON: the opposite of the parent's departure direction",
-              construct="arrival = opposite", node=fn)
-    # traverse
+    # -- table construction -------------------------------------------------------
+    rte = calls_in(fn, "RoutingTableEntry")
+    ok = len(rte) == 1
+    if ok:
+        n = cfg.node_containing(rte[0])
+        cls = program.get("rig.routing_table.entries:RoutingTableEntry")
+        fields = [a.arg for a in cls.args.args if a.arg not in ("cls",
+                                                                 "self")] \
+            if isinstance(cls, ast.FunctionDef) else None
+        if fields is None:
+            fields = _nt_fields(program)
+        f = dict(zip(fields, rte[0].args))
+        for k in rte[0].keywords:
+            f[k.arg] = k.value
+        route = T.term(f["route"], n)
+        srcs = T.term(f["sources"], n) if "sources" in f else None
+        key, mask = T.term(f["key"], n), T.term(f["mask"], n)
+        ok = route[0] == "attr" and route[2] == "outs" and srcs is not None \
+            and srcs == ("attr", route[1], "ins")
+        if ok:
+            Vv = route[1]
+            m1 = match(("comp", ("elem", ("items", V("D"))), 1), Vv)
+            lk = lookup(Vv)
+            if m1 is not None:
+                Kt = ("comp", ("elem", ("items", m1["D"])), 0)
+                D = m1["D"]
+            elif lk is not None:
+                D, Kt = lk
+            else:
+                D = Kt = None
+            ok = Kt is not None and key == T._comp(Kt, 0, 2) and \
+                mask == T._comp(Kt, 1, 2)
+            if ok:
+                # ... of the chip whose table receives the entry
+                m2 = match(("comp", ("elem", ("items", V("RS"))), 1), D)
+                lk2 = lookup(D)
+                if m2 is not None:
+                    chip = ("comp", ("elem", ("items", m2["RS"])), 0)
+                elif lk2 is not None:
+                    chip = lk2[1]
+                else:
+                    chip = None
+                app = [c for c in calls_in(fn, "append")]
+                ok = False
+                for c in app:
+                    if not c.args:
+                        continue
+                    if strip_new(T.term(c.args[0],
+                                        cfg.node_containing(c))) != \
+                            strip_new(T.term(rte[0], n)):
+                        continue
+                    lk3 = lookup(T.term(c.func.value,
+                                        cfg.node_containing(c)))
+                    ok = lk3 is not None and lk3[1] == chip and \
+                        chip is not None
+    rep.check(ok, "C10-R1", inst, "entry = RoutingTableEntry(route=outs, "
+              "key, mask, sources=ins) for each (key, mask) of the chip",
+              construct="entry roles", node=fn,
+              fail="the table entry is not built as (outs, key, mask, ins) "
+                   "of one (key, mask) record of the chip whose table "
+                   "receives it: route and sources (or key and mask) are "
+                   "exchanged")
+    # -- the traversal --------------------------------------------------------------
+    _traverse(program, rep)
+    rep.floor("C10-R1", 8)
+
+
+def _nt_fields(program):
+    tree = program.module("rig.routing_table.entries").tree
+    for st in ast.walk(tree):
+        if isinstance(st, ast.ClassDef) and st.name == "RoutingTableEntry":
+            for b_ in st.bases:
+                if isinstance(b_, ast.Call) and \
+                        call_name(b_)[0] == "namedtuple":
+                    spec = b_.args[1]
+                    if isinstance(spec, ast.Constant):
+                        return spec.value.replace(",", " ").split()
+                    return [e.value for e in spec.elts]
+    raise AnalysisError("RoutingTableEntry fields not found")
+
+
+def _traverse(program, rep):
     tr = program.get(RT + ":RoutingTree.traverse")
-    tfl = Flow(tr)
-    tcfg = tfl.cfg
-    lps = [n for n in ast.walk(tr) if isinstance(n, ast.For)]
-    ok = len(lps) == 1 and unparse(lps[0].iter) == "node.children" and \
-        not any(isinstance(n, (ast.Break, ast.Continue, ast.Return))
-                for n in ast.walk(lps[0]))
-    rep.check(ok, "C10-R1", qual(tr), "every child of a node is examined "
-              "(the child loop has no early exit)",
+    inst = qual(tr)
+    T = Terms(tr)
+    loops = [n for n in ast.walk(tr) if isinstance(n, ast.For) and
+             isinstance(n.iter, ast.Attribute) and n.iter.attr == "children"]
+    if len(loops) != 1:
+        raise AnalysisError("traverse: expected one loop over .children")
+    lp = loops[0]
+    TL = owner_terms(T, lp)
+    head, body, after = _loop_parts(TL.cfg, lp)
+    it = TL.term(lp.iter, head)
+    NODE = it[1]
+    EL = ("elem", it)
+    CD, CH = ("comp", EL, 0), ("comp", EL, 1)
+    ok = not any(isinstance(n, (ast.Break, ast.Return))
+                 for n in ast.walk(lp))
+    rep.check(ok, "C10-R1", inst, "every child of a node is examined "
+              "(the child loop is never left early)",
               construct="traverse child loop", node=tr,
               fail="the loop over a node's children can stop early: later "
                    "children's directions are missing from the entry and "
                    "their sub-trees are never visited")
-    if lps:
-        lp = lps[0]
-        cd, ch = [chain(t) for t in lp.target.elts]
-        adds = [c for c in calls_in(lp, "add")]
-        oka = len(adds) == 1 and chain(adds[0].args[0]) == cd
-        if oka:
-            f = tfl.facts(tcfg.node_containing(adds[0]))
-            conds = [(unparse(c), p) for c, p, _ in f
-                     if _inside(c, lp)]
-            oka = conds == [("%s is not None" % cd, True)]
-        rep.check(oka, "C10-R1", qual(tr), "every child direction that is "
-                  "not None joins the node's out directions",
-                  construct="traverse out directions", node=tr)
-        enq = [c for c in calls_in(lp, "append")]
-        oke = len(enq) == 1 and unparse(enq[0].args[0]) == "(%s, %s)" % (
-            cd, ch)
-        if oke:
-            f = tfl.facts(tcfg.node_containing(enq[0]))
-            conds = [(unparse(c), p) for c, p, _ in f if _inside(c, lp)
-                     and not unparse(c).endswith("is not None")]
-            oke = conds == [("isinstance(%s, RoutingTree)" % ch, True)]
-        rep.check(oke, "C10-R1", qual(tr), "every child that is a sub-tree "
-                  "is queued with the direction leading to it",
-                  construct="traverse enqueue", node=tr)
-        ys = [n for n in ast.walk(tr) if isinstance(n, ast.Yield)]
-        oky = len(ys) == 1 and unparse(ys[0].value) == \
-            "(direction, node.chip, out_directions)" and \
-            not _inside(ys[0], lp)
-        rep.check(oky, "C10-R1", qual(tr), "each node yields (arrival "
-                  "direction, chip, out directions) once all children were "
-                  "examined", construct="traverse yield", node=tr)
-    rep.floor("C10-R1", 9)
+    # out directions: d added iff d is not None
+    isnone = is_none(CD)
+    adds = [c for c in calls_in(lp, "add")
+            if len(c.args) == 1 and TL.term(c.args[0]) == CD]
+    oka = len(adds) == 1
+    SET = None
+    if oka:
+        an = TL.cfg.node_containing(adds[0])
+        SET = TL.term(adds[0].func.value, an)
+        some = TL.under((isnone, False))
+        none = TL.under((isnone, True))
+        oka = some.must_pass(body, lambda n: n is an,
+                             targets=[head, TL.cfg.exit]) and \
+            not none.live(an)
+    rep.check(oka, "C10-R1", inst, "every child direction that is not None "
+              "(and only those) joins the node's out directions",
+              construct="traverse out directions", node=tr)
+    # sub-trees are queued with their direction
+    isTree = ("call", ("global", "isinstance"),
+              (CH, ("global", "RoutingTree")), ())
+    enq = [c for c in calls_in(lp, "append") if len(c.args) == 1 and
+           TL.term(c.args[0]) in (EL, ("tuple", CD, CH))]
+    oke = len(enq) == 1
+    Q = None
+    if oke:
+        en = TL.cfg.node_containing(enq[0])
+        Q = TL.term(enq[0].func.value, en)
+        sub = TL.under((isTree, True))
+        leaf = TL.under((isTree, False))
+        oke = sub.must_pass(body, lambda n: n is en,
+                            targets=[head, TL.cfg.exit]) and \
+            not leaf.live(en)
+    rep.check(oke, "C10-R1", inst, "every child that is a sub-tree (and "
+              "nothing else) is queued with the direction leading to it",
+              construct="traverse enqueue", node=tr)
+    # the yield: (direction, chip, out set) of the node taken from the queue
+    ys = [n for n in ast.walk(tr) if isinstance(n, ast.Yield)]
+    oky = len(ys) == 1 and not _inside(ys[0], lp) and SET is not None and \
+        Q is not None
+    if oky:
+        yn = T.cfg.node_containing(ys[0])
+        yt = T.term(ys[0].value, yn)
+        oky = yt[0] == "tuple" and len(yt) == 4
+        if oky:
+            d, chip, outs = yt[1:]
+            pop = [t for t in subterms(NODE)
+                   if t[0] == "call" and t[1][0] == "attr" and
+                   t[1][2] in ("popleft", "pop") and t[1][1] == Q]
+            oky = bool(pop) and NODE == ("comp", pop[0], 1) and \
+                d == ("comp", pop[0], 0) and \
+                chip == ("attr", NODE, "chip") and outs == SET
+    rep.check(oky, "C10-R1", inst, "each node taken from the queue yields "
+              "(arrival direction, its chip, the out directions collected "
+              "from its children)", construct="traverse yield", node=tr)
 
 
 def _inside(node, anc):
